@@ -8,12 +8,13 @@ import json, os, re, subprocess, sys, time
 from concurrent.futures import ThreadPoolExecutor
 ROOT = os.path.join(os.path.dirname(os.path.abspath(__file__)), '..')
 args = sys.argv[1:]
-jobs, tier, only, sub = 3, 'quick', [], None
+jobs, tier, only, sub, esc = 3, 'quick', [], None, '0'
 while args:
     a = args.pop(0)
     if a == '-j': jobs = int(args.pop(0))
     elif a == '--tier': tier = args.pop(0)
     elif a == '--only': sub = args.pop(0)
+    elif a == '--escalate': esc = '1'   # let the quick tier use the thorough budget on changed sources (what a user's run does)
     else: only.append(a.upper())
 SD = os.path.join(ROOT, 'seeded')
 REVERT = {'revert-F1': ['C17'], 'revert-F2': ['C11'], 'revert-F3': ['C06', 'C09'], 'revert-F4': ['C12']}
@@ -38,7 +39,7 @@ for name in sorted(os.listdir(SD)):
 def one(job):
     name, pid, raw, harmless = job
     t0 = time.time()
-    env = dict(os.environ); env['RAW'] = '1' if raw else '0'
+    env = dict(os.environ); env['RAW'] = '1' if raw else '0'; env['VERIF_ESCALATE'] = esc
     p = subprocess.run([os.path.join(ROOT, 'tools', 'mutant_run.sh'), os.path.join(SD, name, 'patch.diff'), pid, tier],
                        stdout=subprocess.PIPE, stderr=subprocess.STDOUT, text=True, env=env)
     out = p.stdout
@@ -65,7 +66,7 @@ for name, pid, harmless, verdict, what, dt, tail in res:
         json.dump(meta, open(mp, 'w'), indent=1)
         print('ok  %-45s %s %-32s (historical: %s)' % (name, pid, 'patch-does-not-apply', det[pid]['verdict']))
         continue
-    det[pid] = {'tier': tier, 'verdict': verdict, 'what': what, 'wall_s': dt}
+    det[pid] = {'tier': tier + ('+escalated' if esc == '1' and tier == 'quick' else ''), 'verdict': verdict, 'what': what, 'wall_s': dt}
     meta['detected_by'] = det
     json.dump(meta, open(mp, 'w'), indent=1)
     flag = 'ok ' if (verdict.startswith('violation') or verdict.startswith('broken')) != harmless or (harmless and verdict in ('not-detected', 'broken-tie-no-failing-input')) else 'BAD'
